@@ -28,17 +28,29 @@ def closure_predicate(ctx, closure_val):
     return None
 
 
+def funds_suffix(ctx):
+    """'.funds' when the check takes the MessageInfo, '' when it takes the attached coins themselves."""
+    return "" if getattr(ctx.N, "funds_check_takes_funds", False) else ".funds"
+
+
 def check_funds_fn(ctx, inst, chk):
     """R1: decision table of the native-funds check."""
     P = ctx.P
     self_amount = P_(chk, 0, ".amount")
-    info_funds = P_(chk, 1, ".funds")
+    FS = funds_suffix(ctx)
+    info_funds = P_(chk, 1, FS)
     ok_exits = [(b, i, cls, v) for (b, i, cls, v) in common.exit_sites(P, chk) if cls != "err"]
     find_root = None
     tables = []
     for (b, i, cls, v) in ok_exits:
         if cls != "ok":
             inst.fail("C09.R1:non-literal-ok", chk.path, common.span_of_block_term(chk, b), "success exit that is not a literal Ok(()) (%s): unrecognised-idiom" % (cls,))
+            continue
+        # a success exit shared by several paths (`if native { if amount != sent { return Err } } Ok(())`): one row per path
+        pcs = common.path_conjunctions(P, chk, b)
+        if pcs and len(pcs) > 1:
+            for conds in pcs:
+                tables.append((b, conds, cond_strings(ctx, conds)))
             continue
         conds = common.control_conditions(P, chk, b)
         tables.append((b, conds, cond_strings(ctx, conds)))
@@ -209,7 +221,7 @@ def _run(ctx):
             a0 = call_arg_roots(ctx, fn, cb, 0)
             a1 = call_arg_roots(ctx, fn, cb, 1)
             where = common.span_of_block_term(fn, cb)
-            if a1 != {P_(fn, info)}:
+            if a1 != {P_(fn, info, "" if funds_suffix(ctx) else ".funds")}:
                 r2.fail("C09.R2:info-origin", fn.path, where, "check is applied with funds of %s, expected the transaction's MessageInfo" % sorted(a1))
                 continue
             pg = common.propagated(P, fn, cb)
@@ -306,7 +318,7 @@ def _run(ctx):
         for cb in calls:
             where = common.span_of_block_term(fn, cb)
             a0, a1 = call_arg_roots(ctx, fn, cb, 0), call_arg_roots(ctx, fn, cb, 1)
-            if a0 != {P_(fn, offer_i)} or a1 != {P_(fn, info)}:
+            if a0 != {P_(fn, offer_i)} or a1 != {P_(fn, info, "" if funds_suffix(ctx) else ".funds")}:
                 r3.fail("C09.R3:arg-origin", fn.path, where, "check applied to (%s, %s), expected (named offer asset, caller's info)" % (sorted(a0), sorted(a1)))
                 continue
             pg = common.propagated(P, fn, cb)
@@ -329,8 +341,8 @@ def _run(ctx):
             disp, edge, region, h, callbb = arm
             cv = P.val_call(disp, disp.body, callbb)
             di = param(disp, INFO_TY)
-            got = set(ctx.roots(cv[4][info]))
-            if got != {P_(disp, di)}:
+            got, want_ = roles.passed_roots(ctx, cv, info, disp, di)
+            if got != want_:
                 r3.fail("C09.R3:wiring:%s" % label, disp.path, common.span_of_block_term(disp, callbb), "%s swap path passes info ⊢ %s, expected the transaction's own MessageInfo" % (label, sorted(got)))
             else:
                 r3.site("%s path: swap handler's info ⊢ %s" % (label, P_(disp, di)))
